@@ -53,8 +53,8 @@ WFN_ARRAYS = [f"{b}_{s}" for b in ["h_core", "h_effective", "scf_orbitals", "scf
                                    "scf_occupations", "scf_coulomb", "scf_exchange", "localized_orbitals", "localized_fock"]
               for s in "ab"]
 # arrays that declare a shape but are covered by no validator (known finding C20-unvalidated-declared-shapes)
-UNVALIDATED_WFN = {f"{b}_{s}" for b in ["scf_coulomb", "scf_exchange", "localized_orbitals", "localized_fock"] for s in "ab"}
-UNVALIDATED_PROP = {"ccsdt_dipole_moment", "ccsdtq_dipole_moment"}
+UNVALIDATED_WFN = {"localized_fock_a", "localized_fock_b"}
+UNVALIDATED_PROP = set()
 PROP_ARRAYS = {
     "return_gradient": "grad", "scf_total_gradient": "grad", "return_hessian": "hess", "scf_total_hessian": "hess",
     "scf_dipole_moment": "dip", "mp2_dipole_moment": "dip", "ccsd_dipole_moment": "dip", "ccsd_prt_pr_dipole_moment": "dip",
@@ -329,8 +329,7 @@ def oracle_layout(case, out, obj):
     if not acc:
         return [] if out == ["Err", "Validation"] else [(f"non-fitting {case['layout']} array gave {out}", None)]
     if out[0] == "Err":
-        tag = "hessian-layout" if (case["driver"] == "hessian" and out[1] == "AttributeError") else None
-        return [(f"a {case['layout']}-layout array of fitting size {case['shape']} raised {out[1]} under driver {case['driver']}", tag)]
+        return [(f"a {case['layout']}-layout array of fitting size {case['shape']} raised {out[1]} under driver {case['driver']}", None)]
     if out[1] != [shp, True]:
         return [(f"{case['layout']}-layout array {case['shape']} under driver {case['driver']} came back as {out[1]} (shape, data unchanged?)", None)]
     return []
@@ -351,7 +350,8 @@ def implied_shape(name, size, nbf):
         return [nbf, size // nbf] if nbf > 0 and size % nbf == 0 else None
     if k == "vec":
         return [size]
-    return "any"      # localized_fock is nmo x nmo; nmo is not known to the model
+    r = int(round(size ** 0.5))      # localized_fock is nmo x nmo: nmo is not given, but the array must be square
+    return [r, r] if r * r == size else None
 
 
 def oracle_wfn_part(case, out_wfn, restricted_dropped=True):
@@ -392,8 +392,6 @@ def oracle_wfn_part(case, out_wfn, restricted_dropped=True):
                 continue
             if k in WFN_ARRAYS and nbf is not None:
                 want = implied_shape(k, len(v[1]), nbf)
-                if want == "any":
-                    continue
                 if v[2] != want:
                     tag = "unvalidated" if k in UNVALIDATED_WFN else None
                     bad.append((f"{k} accepted with shape {v[2]}, implied shape is {want} (nbf={nbf})", tag))
@@ -504,8 +502,7 @@ def oracle_atomic(case, out, obj):
         return [] if out[0] == "Err" else [("accepted although the protocols are not valid", None)]
     if out[0] == "Err":
         if out[1] != "Validation":
-            tag = "dangling-keyerror" if (out[1] == "KeyError" and dangling(case)) else None
-            bad.append((f"raised {out[1]} instead of a validation error", tag))
+            bad.append((f"raised {out[1]} instead of a validation error", None))
         elif pw_ok and plain and acc_rr and should_accept_wfn(case) is True:
             bad.append(("a valid result was rejected", None))
         return bad
@@ -962,7 +959,7 @@ def gen_basis(rng):
 
 
 CORPUS = [
-    # dangling pointer in a restricted wavefunction under a filtering protocol (KeyError, known finding)
+    # dangling pointer in a restricted wavefunction under a filtering protocol (raised KeyError before 09acef6)
     ("atomic", {"driver": "energy", "pw": "orbitals_and_eigenvalues", "pstdout": None, "pnative": None,
                 "wfn": [["basis", ["basis", 2]], ["restricted", ["bool", True]], ["scf_orbitals_b", ["arr", [1, 2, 3, 4], [4], "nd"]],
                         ["orbitals_a", ["str", "scf_orbitals_b"]]], "rr": ["float", 5], "stdout": "I ran.", "native": None}),
@@ -978,7 +975,17 @@ CORPUS = [
                 "rr": ["arr", list(range(36)), [36], "list"], "stdout": "x", "native": {"out": "o"}}),
     ("atomic", {"driver": "gradient", "pw": None, "pstdout": True, "pnative": "all", "wfn": None,
                 "rr": ["arr", [1, 2, 3, 4, 5, 6, 7], [7], "nd"], "stdout": None, "native": {}}),
+    # repaired by e040dda: must be rejected / reshaped now
     ("props", {"natom": 2, "fields": [["ccsdt_dipole_moment", ["arr", [1, 2, 3, 4], [4], "nd"]]]}),
+    ("props", {"natom": None, "fields": [["ccsdtq_dipole_moment", ["arr", [1, 2, 3], [3, 1], "nd"]]]}),
+    ("wfnprops", {"wfn": [["basis", ["basis", 2]], ["restricted", ["bool", False]], ["scf_coulomb_a", ["arr", [1, 2, 3], [3], "nd"]]]}),
+    ("wfnprops", {"wfn": [["basis", ["basis", 2]], ["restricted", ["bool", False]], ["scf_exchange_b", ["arr", [1, 2, 3, 4], [4], "list"]],
+                          ["localized_orbitals_a", ["arr", [1, 2, 3, 4, 5, 6], [6], "nd"]]]}),
+    # still open (localized_fock_*: known finding C20-unvalidated-declared-shapes)
+    ("wfnprops", {"wfn": [["basis", ["basis", 2]], ["restricted", ["bool", False]], ["localized_fock_a", ["arr", [1, 2, 3, 4], [4], "nd"]]]}),
+    # repaired by d4f66cd: non-contiguous Hessian return_result
+    ("layout", {"driver": "hessian", "layout": "F", "shape": [2, 8]}),
+    ("layout", {"driver": "hessian", "layout": "strided", "shape": [16]}),
     ("props", {"natom": 2, "fields": [["return_gradient", ["arr", [1, 2, 3, 4, 5, 6], [6], "list"]],
                                       ["scf_total_hessian", ["arr", list(range(36)), [4, 9], "nd"]],
                                       ["scf_quadrupole_moment", ["arr", list(range(9)), [9], "nd"]]]}),
@@ -996,33 +1003,33 @@ CORPUS = [
 
 
 def gen_cases(ctx):
+    """a generator: the thorough tier never holds all cases in memory"""
     rng = ctx.rng
     th = ctx.thorough
-    cases = list(CORPUS)
+    yield from CORPUS
     n_combo = 6 * 3 * 4 * 4
     for rep in range(40 if th else 2):          # the full protocol product, several payloads each
         for k in range(n_combo):
-            cases.append(("atomic", gen_atomic(rng, k)))
+            yield (("atomic", gen_atomic(rng, k)))
     for _ in range(20000 if th else 1000):
-        cases.append(("atomic", gen_atomic(rng, None, weird=0.5)))
+        yield (("atomic", gen_atomic(rng, None, weird=0.5)))
     for _ in range(8000 if th else 500):
-        cases.append(("wfnprops", {"wfn": gen_wfn(rng, weird=0.4)}))
+        yield (("wfnprops", {"wfn": gen_wfn(rng, weird=0.4)}))
     for _ in range(30000 if th else 1500):
-        cases.append(("props", gen_props(rng)))
+        yield (("props", gen_props(rng)))
     for pol in [None] + TRAJ + ["bogus"]:         # exhaustive over length 0..6 in original order, then permuted ids
         for n in range(0, 7):
-            cases.append(("traj", {"policy": pol, "ids": list(range(n))}))
+            yield (("traj", {"policy": pol, "ids": list(range(n))}))
     for _ in range(600 if th else 60):
         n = rng.randint(0, 7)
-        cases.append(("traj", {"policy": rng.choice(TRAJ), "ids": [rng.randint(0, 7) for _ in range(n)]}))
+        yield (("traj", {"policy": rng.choice(TRAJ), "ids": [rng.randint(0, 7) for _ in range(n)]}))
     for _ in range(30000 if th else 2000):
-        cases.append(("basis", gen_basis(rng)))
+        yield (("basis", gen_basis(rng)))
     # memory layouts of return_result (oracle only: the model works on the logical element order)
     for driver in ("gradient", "hessian"):
         for layout in ("F", "strided", "reversed"):
             for shape in ([6], [2, 3], [3, 2], [9], [3, 3], [16], [4, 4], [2, 8], [8, 2], [36], [6, 6], [4, 9], [12, 3], [2, 2, 9], [7]):
-                cases.append(("layout", {"driver": driver, "layout": layout, "shape": shape}))
-    return cases
+                yield (("layout", {"driver": driver, "layout": layout, "shape": shape}))
 
 
 # ---------------------------------------------------------------------------------------------------------
@@ -1041,14 +1048,46 @@ def correspond(ctx):
                  "AtomicResultProperties directly; trajectories of length 0..7 under every policy; random basis sets (fused and "
                  "general contractions, nbf right/wrong/absent). Non-trivial = the implementation accepted the input (an object "
                  "was built and re-validated); distinct = distinct inputs")
-    cases = gen_cases(ctx)
     terms, bterms, meta, bmeta = [], [], [], []
-    for stream, case in cases:
+    ntag = {}
+    total = 0
+
+    def flush():
+        """evaluate the model on the buffered cases and drop them"""
+        nonlocal terms, bterms, meta, bmeta
+        if terms:
+            try:
+                bad, errors = coqrun.eval_bad_indices("C20", REQ, "", "check_case", terms, shard=250, ty="c20case")
+            except Exception:               # keep the oracle verdicts collected so far
+                import traceback
+                bad, errors = [], [(0, "model evaluation crashed: " + traceback.format_exc()[-1500:])]
+            corr.errors.extend(f"shard {k}: {e}" for k, e in errors)
+            for b in bad[:8]:
+                stream, case, out = meta[b]
+                got, _ = coqrun.eval_terms("C20", REQ, "", [
+                    f"match {terms[b]} with CAtomic i _ => Some (inl (atomic_result i)) | CWfnProps w _ => Some (inr (inl (wfn_validate w))) "
+                    f"| CProps n f _ => Some (inr (inr (inl (props_fields n f)))) | CTraj p v _ => Some (inr (inr (inr (traj_protocol p v)))) end"])
+                corr.disagreements.append({"stream": stream, "case": {"stream": stream, "input": case}, "impl": out, "model": got})
+        if bterms:
+            try:
+                bad2, errors2 = coqrun.eval_bad_indices("C20b", REQ, "", "check_basis", bterms, shard=600, ty="basis_in * outcome Z")
+            except Exception:
+                import traceback
+                bad2, errors2 = [], [(0, "model evaluation crashed: " + traceback.format_exc()[-1500:])]
+            corr.errors.extend(f"basis shard {k}: {e}" for k, e in errors2)
+            for b in bad2[:8]:
+                stream, case, out = bmeta[b]
+                got, _ = coqrun.eval_terms("C20b", REQ, "", [f"basis_validate (fst {bterms[b]})"])
+                corr.disagreements.append({"stream": stream, "case": {"stream": stream, "input": case}, "impl": out, "model": got})
+        terms, bterms, meta, bmeta = [], [], [], []
+
+    for stream, case in gen_cases(ctx):
         try:
             out, bad = judge(stream, case)
         except Exception as e:                      # harness problem, not a finding
             corr.errors.append(f"harness error on {stream} case {case}: {type(e).__name__}: {e}")
             continue
+        total += 1
         corr.count(stream)
         corr.hit(f"{stream}_" + (out[0] if out[0] == "Ok" else "Err_" + out[1]))
         if stream == "atomic":
@@ -1057,9 +1096,13 @@ def correspond(ctx):
                 corr.hit("wfn_kept_nonempty")
         if out[0] == "Ok":
             corr.nontriv([stream, case])
-            if ctx.rng.random() < 0.001:
+            if total == 2 or ctx.rng.random() < 0.001:
                 corr.sample({"stream": stream, "input": case, "output": out})
         for what, tag in bad:
+            if tag is not None:                     # known-finding symptoms: keep a bounded number of each, count all
+                ntag[tag] = ntag.get(tag, 0) + 1
+                if ntag[tag] > 300:
+                    continue
             corr.failures.append({"stream": "oracle-" + stream, "case": {"stream": stream, "input": case}, "what": what,
                                   "observed": out, "tag": tag})
         if stream == "layout":
@@ -1070,31 +1113,13 @@ def correspond(ctx):
         else:
             terms.append(case_term(stream, case, out))
             meta.append((stream, case, out))
-    corr.sample({"stream": cases[1][0], "input": cases[1][1], "output": judge(*cases[1])[0]})
-    ctx.log(f"{len(terms) + len(bterms)} cases through the implementation; evaluating the model")
-    try:
-        bad, errors = coqrun.eval_bad_indices("C20", REQ, "", "check_case", terms, shard=400, ty="c20case")
-    except Exception:               # keep the oracle verdicts collected so far
-        import traceback
-        bad, errors = [], [(0, "model evaluation crashed: " + traceback.format_exc()[-1500:])]
-    corr.errors.extend(f"shard {k}: {e}" for k, e in errors)
-    for b in bad[:8]:
-        stream, case, out = meta[b]
-        fn = {"atomic": "atomic_result", "wfnprops": "wfn_validate", "props": "props_fields", "traj": "traj_protocol"}[stream]
-        got, _ = coqrun.eval_terms("C20", REQ, "", [
-            f"match {terms[b]} with CAtomic i _ => Some (inl (atomic_result i)) | CWfnProps w _ => Some (inr (inl (wfn_validate w))) "
-            f"| CProps n f _ => Some (inr (inr (inl (props_fields n f)))) | CTraj p v _ => Some (inr (inr (inr (traj_protocol p v)))) end"])
-        corr.disagreements.append({"stream": stream, "case": {"stream": stream, "input": case}, "impl": out, "model": got})
-    try:
-        bad2, errors2 = coqrun.eval_bad_indices("C20b", REQ, "", "check_basis", bterms, shard=600, ty="basis_in * outcome Z")
-    except Exception:
-        import traceback
-        bad2, errors2 = [], [(0, "model evaluation crashed: " + traceback.format_exc()[-1500:])]
-    corr.errors.extend(f"basis shard {k}: {e}" for k, e in errors2)
-    for b in bad2[:8]:
-        stream, case, out = bmeta[b]
-        got, _ = coqrun.eval_terms("C20b", REQ, "", [f"basis_validate (fst {bterms[b]})"])
-        corr.disagreements.append({"stream": stream, "case": {"stream": stream, "input": case}, "impl": out, "model": got})
+        if len(terms) + len(bterms) >= 8000:
+            ctx.log(f"{total} cases through the implementation so far; evaluating the model on a block")
+            flush()
+    ctx.log(f"{total} cases through the implementation; evaluating the model on the last block")
+    flush()
+    for tag, n in ntag.items():
+        corr.notes.append(f"{n} symptom(s) of known-finding tag `{tag}` seen this run (at most 300 kept)")
     corr.exhaustive = False
     return corr
 
@@ -1129,15 +1154,11 @@ def replay(ctx, rp):
 
 
 KNOWN = {
-    # narrow: only AttributeError, only driver hessian, only non-C-contiguous input whose size is a perfect square
-    "C20-hessian-noncontiguous": lambda f: f.get("tag") == "hessian-layout" and f.get("observed") == ["Err", "AttributeError"]
-    and f.get("case", {}).get("input", {}).get("driver") == "hessian",
+
     # narrow: only "native_files {} becomes {'input': None}" when native_files was not supplied under policy `input`
     "C20-native-input-default-not-idempotent": lambda f: f.get("tag") == "native-default" and "re-validation changed" in f.get("what", ""),
-    # narrow: only the wrong-exception-class symptom of a kept pointer whose target array is absent (after the restricted
-    # filter) under a filtering protocol
-    "C20-dangling-pointer-keyerror": lambda f: f.get("tag") == "dangling-keyerror" and f.get("observed") == ["Err", "KeyError"],
-    # narrow: only "accepted with shape ... implied shape is ..." on the fields that declare a shape but have no validator
+
+    # narrow: only "accepted with shape ... implied shape is ..." on localized_fock_a/_b (declared nmo x nmo, no validator)
     "C20-unvalidated-declared-shapes": lambda f: f.get("tag") == "unvalidated" and " accepted with shape " in f.get("what", "")
     and f["what"].split(" ")[0] in (UNVALIDATED_WFN | UNVALIDATED_PROP),
 }
@@ -1150,7 +1171,7 @@ LEVEL_TEXT = (
     "from results.py / procedures.py / basis.py on every run (Gen/KeepLists.v). For EVERY wavefunction dictionary, protocol string, "
     "trajectory, array and basis set: C20_wfn_kept_exactly (result = exactly {restricted, basis} + documented pointers present + "
     "their targets, or everything minus *_b when restricted under `all`; every kept payload is the supplied one; no *_b key survives a "
-    "restricted wavefunction), C20_wfn_dropped_only_by_none, C20_wfn_protocol_idempotent, C20_wfn_no_keyerror_when_targets_present, "
+    "restricted wavefunction), C20_wfn_dropped_only_by_none, C20_wfn_protocol_idempotent, "
     "C20_stdout_native_protocols (spec + idempotence), C20_trajectory_spec (any length, empty/singleton explicit), "
     "C20_trajectory_idempotent_total (no IndexError), C20_shapes_accepted_iff_size_fits (numpy reshape incl. one unknown dimension), "
     "C20_shapes_flat_shaped_idempotent, C20_return_result_by_driver (gradient 3|size; hessian size = n*n via Z.sqrt), "
@@ -1158,9 +1179,11 @@ LEVEL_TEXT = (
     "WavefunctionProperties dictionary returns it unchanged: reshape + pointer check over all generated fields), C20_nbf_spec / C20_nbf_count_formulas / "
     "C20_basis_revalidation (count = sum over atoms and shells of 2L+1 | (L+1)(L+2)/2; accepted iff nbf absent or equal), "
     "C20_keep_lists_are_documented (generated tables = tables written by hand from the documentation). Three statements of the "
-    "property are false of the code and are proved in refuted form with witnesses replayed on the implementation: "
-    "C20_wfn_fails_closed_refuted (bare KeyError), C20_declared_shapes_enforced_refuted (unvalidated declared shapes), "
-    "C20_revalidation_identity_refuted (native_files default under policy input). The models are tied to the code by the "
+    "C20_wfn_fails_closed (filter and filter+validation refuse only with a validation error; success iff every selected pointer "
+    "has its target), C20_declared_shapes_enforced (every declared shape has a compatible reshape rule, finite over the generated "
+    "tables). Two statements of the property are false of the code and are proved in refuted form with witnesses replayed on the "
+    "implementation: C20_declared_shapes_enforced_refuted (localized_fock_a/_b only), C20_revalidation_identity_refuted "
+    "(native_files default under policy input). The models are tied to the code by the "
     "fail-closed translator and by exact differential execution over the full product of protocols x drivers x payload subsets / "
     "pointers x flat/shaped/list/wrong-sized arrays, WavefunctionProperties / AtomicResultProperties directly, trajectories of "
     "length 0..7 under every policy, random basis sets (fused/general contractions, nbf right/wrong/absent), with the property "
@@ -1172,5 +1195,5 @@ LEVEL_NOTE = (
     "and the re-validation oracle): idempotence of the COMPOSITION protocol filter ; WavefunctionProperties validation (each half is "
     "proved idempotent separately) and of whole-AtomicResult re-validation outside the refuted native_files case. Out of the model: "
     "memory layout (the models work on the logical element order; Fortran/strided/reversed return_result arrays are judged by the "
-    "oracle only - the Hessian branch fails on them, known finding C20-hessian-noncontiguous), dict-valued return_result, non-str "
+    "oracle only), dict-valued return_result, non-str "
     "pointer values. No axioms (all theorems closed under the global context).")
